@@ -1,7 +1,7 @@
 #!/bin/bash
 # usage: confirm_all.sh <Cxx>  — confirms variants 1..3 produced by a seed agent (demo's first line names the package dir)
 id="$1"
-for n in 1 2 3; do
+for n in ${NS:-1 2 3}; do
   d=/tmp/mut/out/$id/$n
   [ -f $d/patch.diff ] || continue
   pkg=$(head -1 $d/demo_test.go | sed -E 's/.*(pkg[^ ]*|cmd[^ ]*|config[^ ]*).*/\1/' | tr -d ' \r')
